@@ -4,8 +4,11 @@
    Property theorems only; each is closed by [exact] and followed by Print Assumptions. *)
 From Coq Require Import String.
 From Coq Require Import List Arith ZArith Bool Lia.
+From PV Require Import Directors.Model Io.ErrLine Io.ErrLineProofs.
+From PV Require Import Io.Compile Io.CompileProofs Io.CompileIoProofs.
 From PV Require Import Io.Model Generated.C15_Handlers Io.Proofs Io.LineProofs.
 Import ListNotations.
+Close Scope Z_scope.   (* Directors.Model opens it *)
 
 (* (1) Opcode dispatch is total.  Bound: the finite table regenerated on every run = every opcode name in
    pycnite's tables for Python 3.8, 3.9, 3.10, 3.11, 3.12 (every listed version contributes rows).  Every row
@@ -130,3 +133,267 @@ Example chain_nonvacuous :
   outcome (Raised cls_KeyboardInterrupt None) true false = OEscape false /\
   outcome (Raised cls_UsageError None) true false = OEscape false.
 Proof. vm_compute. repeat split; reflexivity. Qed.
+
+
+(* texts used by the compile-path theorems' witnesses and Examples *)
+Definition MSG_INVALID : text := [105; 110; 118; 97; 108; 105; 100; 32; 115; 121; 110; 116; 97; 120]%N.   (* invalid syntax *)
+Definition MSG_RETURN : text := [39; 114; 101; 116; 117; 114; 110; 39; 32; 111; 117; 116; 115; 105; 100; 101; 32; 102; 117; 110; 99; 116; 105; 111; 110]%N.   (* 'return' outside function *)
+Definition FILE_NL : text := [97; 10; 98; 46; 112; 121]%N.   (* a<newline>b.py *)
+Definition FILE_F : text := [102; 46; 112; 121]%N.   (* f.py *)
+Definition FILE_DIR_F : text := [47; 97; 47; 98; 47; 102; 46; 112; 121]%N.   (* /a/b/f.py *)
+Definition FILE_PAREN : text := [97; 32; 40; 98; 44; 32; 108; 105; 110; 101; 32; 55; 41; 46; 112; 121]%N.   (* a (b, line 7).py *)
+Definition FILE_PAREN_REST : text := [98; 44; 32; 108; 105; 110; 101; 32; 55; 41; 46; 112; 121]%N.   (* b, line 7).py *)
+Definition MSG_ARABIC : text := [120; 32; 40; 102; 44; 32; 108; 105; 110; 101; 32; 1633; 1634; 41]%N.   (* x (f, line <ARABIC-INDIC ONE><ARABIC-INDIC TWO>) *)
+Definition FILE_SURR : text := [120; 32; 40; 99; 97; 102; 56553; 46; 112; 121; 44; 32; 108; 105; 110; 101; 32; 51; 41]%N.   (* x (caf<U+DCE9>.py, line 3) *)
+
+(* ============================================================================================================ *)
+(* (4) The compile-error path end to end (Io/Compile.v): compile_bytecode.compile_src_to_pyc, the first-byte
+   dispatch and CompileError.__init__ of pyc/compiler.py, and io.py's `except pyc.CompileError`.
+   Text = list of code points (N).  nd = the table of Unicode Nd blocks that `\d` and int() use, maxd = int()'s
+   digit limit: the theorems hold for EVERY table and limit (the real ones are regenerated on every run and
+   `nd_table_wf` checks the side condition on them). *)
+
+(* The matcher returns only readings of the message: msg = g1 " (" g2 ", line " d ")" with an optional final "\n",
+   no "\n" in g1 and g2, d a non-empty run of digits. *)
+Theorem pattern_match_sound : forall nd msg g1 g2 d,
+  re_match nd msg = Some (g1, g2, d) -> decomp nd msg g1 g2 d.
+Proof. exact re_match_sound. Qed.
+Print Assumptions pattern_match_sound.
+
+(* ... and every reading makes it succeed, with the same digits and with a group 1 at least as long (greedy). *)
+Theorem pattern_match_complete : forall nd msg g1' g2' d', is_digit nd SP = false -> decomp nd msg g1' g2' d' ->
+  exists g1 g2, re_match nd msg = Some (g1, g2, d') /\ (length g1' <= length g1)%nat /\
+                g1 ++ sep_open ++ g2 = g1' ++ sep_open ++ g2'.
+Proof. exact re_match_complete. Qed.
+Print Assumptions pattern_match_complete.
+
+(* "the n in the message" is well defined: all readings of one message carry the same digits, whatever the
+   message text and the file name contain (parentheses, ", line 7)", other scripts' digits ...). *)
+Theorem line_unambiguous : forall nd msg g1 g2 d g1' g2' d', is_digit nd SP = false ->
+  decomp nd msg g1 g2 d -> decomp nd msg g1' g2' d' -> d = d'.
+Proof. exact line_unambiguous_lemma. Qed.
+Print Assumptions line_unambiguous.
+
+(* CompileError.__init__ is total up to int()'s limit: either the message has a reading, and then the line is the
+   value of ITS digits and the error text is the longest possible group 1 (or int() raises ValueError); or it has
+   none, and then error = the whole message, filename = None, line = 1. *)
+Theorem compile_error_init_cases : forall nd maxd msg, is_digit nd SP = false ->
+  (exists g1 g2 d, decomp nd msg g1 g2 d /\
+     (forall g1' g2' d', decomp nd msg g1' g2' d' -> d' = d /\ (length g1' <= length g1)%nat) /\
+     compile_error_init nd maxd msg =
+       if int_refuses maxd d then CEvalue_error else CEok g1 (Some g2) (int_of nd d)) \/
+  ((forall g1 g2 d, ~ decomp nd msg g1 g2 d) /\ compile_error_init nd maxd msg = CEok msg None 1%N).
+Proof. exact compile_error_init_cases_lemma. Qed.
+Print Assumptions compile_error_init_cases.
+
+(* CompileError(msg) itself raises (ValueError from int()) exactly for a readable message with more digits than
+   sys.get_int_max_str_digits(); reproduced on the real class.  No compiler produces such a line number. *)
+Theorem compile_error_raises_iff : forall nd maxd msg, is_digit nd SP = false ->
+  (compile_error_init nd maxd msg = CEvalue_error <->
+   exists g1 g2 d, decomp nd msg g1 g2 d /\ (0 < maxd)%nat /\ (maxd < length d)%nat).
+Proof. exact compile_error_raises_iff_lemma. Qed.
+Print Assumptions compile_error_raises_iff.
+
+(* The well-formed compiler message, as SyntaxError.__str__ builds it from msg, a file name and a non-negative
+   lineno: the reported line is the number in the message; error ++ " (" ++ filename is msg ++ " (" ++ basename;
+   and the split is the intended one unless the file's base name itself contains " (". *)
+Theorem syntax_error_line : forall nd maxd msg f d,
+  wf_nd nd = true -> Compile.no_nl msg = true -> Compile.no_nl (basename f) = true ->
+  d <> [] -> forallb ascii_digit d = true -> int_refuses maxd d = false ->
+  exists e' f',
+    compile_error_init nd maxd (syntax_error_str msg (Some f) (Some d)) = CEok e' (Some f') (ascii_value d) /\
+    e' ++ sep_open ++ f' = msg ++ sep_open ++ basename f /\
+    ((forall u v, basename f <> u ++ sep_open ++ v) -> e' = msg /\ f' = basename f).
+Proof. exact syntax_error_line_lemma. Qed.
+Print Assumptions syntax_error_line.
+
+(* Malformed shape 1: a newline in the message or in the file's base name.  The pattern has no DOTALL: no match,
+   line 1, and the whole "msg (file, line n)" text becomes the error message. *)
+Theorem syntax_error_newline_falls_back : forall nd maxd msg f d,
+  wf_nd nd = true -> Compile.no_nl (msg ++ sep_open ++ basename f) = false ->
+  d <> [] -> forallb ascii_digit d = true ->
+  compile_error_init nd maxd (syntax_error_str msg (Some f) (Some d)) =
+    CEok (syntax_error_str msg (Some f) (Some d)) None 1%N.
+Proof. exact syntax_error_newline_lemma. Qed.
+Print Assumptions syntax_error_newline_falls_back.
+
+(* so "the reported line is the n of the message" is REFUTED for the unchanged code: file "a\nb.py", message
+   "invalid syntax", line 3 is reported at line 1 (reproduced on the real pyc.compile_src and end to end) *)
+Theorem compile_error_line_refuted : exists msg f d,
+  d <> [] /\ forallb ascii_digit d = true /\ ascii_value d = 3%N /\
+  exists e, compile_error_init nd_block_starts int_max_str_digits (syntax_error_str msg (Some f) (Some d)) =
+            CEok e None 1%N.
+Proof.
+  exists MSG_INVALID, FILE_NL, [51%N]. split; [discriminate|]. split; [reflexivity|]. split; [reflexivity|].
+  eexists. vm_compute. reflexivity.
+Qed.
+Print Assumptions compile_error_line_refuted.
+
+(* Malformed shape 2: a negative lineno (CPython 3.12 can blame line -1): "-" is not a digit, fallback to line 1. *)
+Theorem syntax_error_negative_falls_back : forall nd maxd msg f d,
+  wf_nd nd = true -> forallb ascii_digit d = true ->
+  compile_error_init nd maxd (syntax_error_str msg (Some f) (Some (45%N :: d))) =
+    CEok (syntax_error_str msg (Some f) (Some (45%N :: d))) None 1%N.
+Proof. exact syntax_error_negative_lemma. Qed.
+Print Assumptions syntax_error_negative_falls_back.
+
+(* Malformed shape 3: no file name, "msg (line n)": fallback to line 1 although CPython names a line. *)
+Theorem syntax_error_noname_falls_back : forall nd maxd msg d,
+  wf_nd nd = true -> forallb ascii_digit d = true ->
+  compile_error_init nd maxd (syntax_error_str msg None (Some d)) =
+    CEok (syntax_error_str msg None (Some d)) None 1%N.
+Proof. exact syntax_error_noname_lemma. Qed.
+Print Assumptions syntax_error_noname_falls_back.
+
+(* The native compile step: compile() returned -> pyc bytes; it raised -> UnicodeEncodeError if str(err) holds a
+   lone surrogate (strict .encode("utf-8")), else CompileError(str(err)) (or its ValueError). *)
+Theorem compile_native_cases : forall nd maxd,
+  compile_native nd maxd CompOk = PBytes /\
+  (forall s, existsb is_surrogate s = true -> compile_native nd maxd (CompExc s) = PRaise RUnicodeEncodeError) /\
+  (forall s, existsb is_surrogate s = false ->
+     compile_native nd maxd (CompExc s) =
+       match compile_error_init nd maxd s with
+       | CEok e f l => PCompileError e f l
+       | CEvalue_error => PRaise RValueError
+       end).
+Proof. exact compile_native_cases_lemma. Qed.
+Print Assumptions compile_native_cases.
+
+(* The first-byte dispatch on ANY output of a compile script (external python_exe included), inverted. *)
+Theorem from_output_total : forall nd maxd o,
+  match from_output nd maxd o with
+  | PBytes => exists p, o = Out 0 p
+  | PCompileError e f l => exists s, o = Out 1 (Some s) /\ compile_error_init nd maxd s = CEok e f l
+  | PRaise RIndexError => o = OutEmpty
+  | PRaise RUnicodeDecodeError => o = Out 1 None
+  | PRaise RValueError => exists s, o = Out 1 (Some s) /\ compile_error_init nd maxd s = CEvalue_error
+  | PRaise ROSError => exists b p, o = Out b p /\ b <> 0%N /\ b <> 1%N
+  | PRaise RUnicodeEncodeError => False
+  end.
+Proof. exact from_output_total_lemma. Qed.
+Print Assumptions from_output_total.
+
+(* io.py: a CompileError, whatever its message, becomes exactly ONE python-compiler-error, at CompileError.line. *)
+Theorem compile_error_one_error : forall e f l nofail check,
+  io_after_compile (PCompileError e f l) nofail check = Some (ODefault [N.to_nat l] InfoNone).
+Proof. exact compile_error_one_error_lemma. Qed.
+Print Assumptions compile_error_one_error.
+
+(* End to end over the regenerated tables: a code-generation SyntaxError with a file name and a non-negative line
+   (no newline in msg / base name, no lone surrogate) gives the default stub and exactly one error at that line. *)
+Theorem compile_stage_error_end_to_end : forall msg f d nofail check,
+  Compile.no_nl msg = true -> Compile.no_nl (basename f) = true ->
+  existsb is_surrogate (syntax_error_str msg (Some f) (Some d)) = false ->
+  d <> [] -> forallb ascii_digit d = true -> int_refuses int_max_str_digits d = false ->
+  io_after_compile
+    (compile_native nd_block_starts int_max_str_digits (CompExc (syntax_error_str msg (Some f) (Some d))))
+    nofail check
+  = Some (ODefault [N.to_nat (ascii_value d)] InfoNone).
+Proof. exact compile_stage_error_end_to_end_lemma. Qed.
+Print Assumptions compile_stage_error_end_to_end.
+
+(* Everything else the compile step can raise (ValueError, UnicodeEncodeError, UnicodeDecodeError, OSError,
+   IndexError) is an ordinary Exception for the chain: it ESCAPES unless options.nofail.  With a lone surrogate in
+   str(err) - a file whose name is not valid UTF-8 - this is reachable: see compile_error_surrogate_escapes. *)
+Theorem compile_step_raise_outcome : forall r nofail check,
+  io_after_compile (PRaise r) nofail check =
+    Some (if nofail then ODefault [] (if check then InfoNone else InfoCaught) else OEscape true).
+Proof. exact compile_step_raise_outcome_lemma. Qed.
+Print Assumptions compile_step_raise_outcome.
+
+Theorem compile_error_surrogate_escapes : forall s check,
+  existsb is_surrogate s = true ->
+  io_after_compile (compile_native nd_block_starts int_max_str_digits (CompExc s)) false check = Some (OEscape true).
+Proof. exact compile_stage_error_surrogate_lemma. Qed.
+Print Assumptions compile_error_surrogate_escapes.
+
+(* ---- non-vacuity ---- *)
+Example table_wf : wf_nd nd_block_starts = true /\ (length nd_block_starts >= 60)%nat /\ int_max_str_digits = 4300%nat.
+Proof. vm_compute. repeat split; try reflexivity. apply Nat.leb_le. reflexivity. Qed.
+
+(* "'return' outside function (f.py, line 3)" *)
+Example real_message :
+  compile_error_init nd_block_starts int_max_str_digits (syntax_error_str MSG_RETURN (Some FILE_F) (Some [51%N])) =
+    CEok MSG_RETURN (Some FILE_F) 3%N /\
+  io_after_compile (compile_native nd_block_starts int_max_str_digits
+                      (CompExc (syntax_error_str MSG_RETURN (Some FILE_DIR_F) (Some [49%N; 50%N])))) false false =
+    Some (ODefault [12] InfoNone).
+Proof. vm_compute. split; reflexivity. Qed.
+
+(* the hypotheses of syntax_error_line / compile_stage_error_end_to_end are met by that message *)
+Example real_message_hyps :
+  Compile.no_nl MSG_RETURN = true /\ Compile.no_nl (basename FILE_DIR_F) = true /\ basename FILE_DIR_F = FILE_F /\
+  existsb is_surrogate (syntax_error_str MSG_RETURN (Some FILE_DIR_F) (Some [49%N; 50%N])) = false /\
+  forallb ascii_digit [49%N; 50%N] = true /\ int_refuses int_max_str_digits [49%N; 50%N] = false.
+Proof. vm_compute. repeat split; reflexivity. Qed.
+
+(* greedy group 1: file "a (b, line 7).py": the line is still 3, but the error text swallows " (a" *)
+Example paren_in_file_name :
+  compile_error_init nd_block_starts int_max_str_digits (syntax_error_str MSG_RETURN (Some FILE_PAREN) (Some [51%N])) =
+    CEok (MSG_RETURN ++ [32; 40; 97]%N) (Some FILE_PAREN_REST) 3%N.
+Proof. vm_compute. reflexivity. Qed.
+
+(* other scripts' digits are digits for `\d` and for int(): "x (f, line ١٢)" is line 12; "-1" and "(line 5)" fall back *)
+Example shapes :
+  compile_error_init nd_block_starts int_max_str_digits MSG_ARABIC = CEok [120%N] (Some [102%N]) 12%N /\
+  compile_error_init nd_block_starts int_max_str_digits (syntax_error_str [120%N] (Some [102%N]) (Some [45; 49]%N)) =
+    CEok (syntax_error_str [120%N] (Some [102%N]) (Some [45; 49]%N)) None 1%N /\
+  compile_error_init nd_block_starts int_max_str_digits (syntax_error_str [120%N] None (Some [53%N])) =
+    CEok (syntax_error_str [120%N] None (Some [53%N])) None 1%N /\
+  compile_native nd_block_starts int_max_str_digits (CompExc FILE_SURR) = PRaise RUnicodeEncodeError.
+Proof. vm_compute. repeat split; reflexivity. Qed.
+
+(* ============================================================================================================ *)
+(* (5) "Every reported error carries a line inside the file" (Io/ErrLine.v; the director's filter is the C03 model).
+   n = number of lines of the file.  MONITORED hypotheses (checked on every program the search analyses, through a
+   hook in the worker): every opcode line and every function-range end lies in [1, n]. *)
+
+(* Error.with_stack: the line is the line of an opcode that is on the stack, or it is 0 and then no frame with an
+   opcode survives _dedup_opcodes (which drops skip_in_tracebacks frames when the stack has more than one frame). *)
+Theorem with_stack_line_cases : forall stack,
+  (dedup_opcodes stack = [] /\ with_stack_line stack = 0%Z) \/
+  (exists fr, In fr stack /\ f_op fr = Some (with_stack_line stack)).
+Proof. exact ErrLineProofs.with_stack_line_cases. Qed.
+Print Assumptions with_stack_line_cases.
+
+(* ErrorLog.error + ErrorLog._add with the director's filter (implicit-return adjustment included): a logged error
+   that has a position (a surviving opcode, or a non-zero `line=` override inside the file) carries a line in [1, n]. *)
+Theorem logged_line_in_file_partial : forall n st rl stack override name ret_op l',
+  ops_in_file n stack -> ranges_in_file n st ->
+  (forall l, override = Some l -> l = 0 \/ 1 <= l <= n)%Z ->
+  (dedup_opcodes stack <> [] \/ exists l, override = Some l /\ l <> 0%Z) ->
+  logged st rl stack override name ret_op = Directors.Model.Ok (Some l') -> (1 <= l' <= n)%Z.
+Proof. exact logged_line_in_file_lemma. Qed.
+Print Assumptions logged_line_in_file_partial.
+
+(* the unconditional statement is REFUTED at this level: an error logged with a stack that holds no opcode (e.g. two
+   frames, both skip_in_tracebacks) carries line 0.  Reproduced on the real ErrorLog.error; the search oracle
+   reports any such error of a real analysis as error-line-outside-file. *)
+Theorem logged_line_in_file_refuted : exists stack,
+  ops_in_file 5 stack /\ stack <> [] /\ error_line stack None = 0%Z.
+Proof.
+  exists [mkF true (Some 2%Z); mkF true (Some 3%Z)]. split.
+  - unfold ops_in_file. intros fr l [<- | [<- | []]] E; cbn in E; injection E as E; subst l; split; discriminate.
+  - split; [discriminate|reflexivity].
+Qed.
+Print Assumptions logged_line_in_file_refuted.
+
+Theorem no_opcode_line_zero : forall stack, dedup_opcodes stack = [] -> error_line stack None = 0%Z.
+Proof. exact no_opcode_line_zero_lemma. Qed.
+Print Assumptions no_opcode_line_zero.
+
+(* non-vacuity: a three-frame stack (the middle frame is tracer_vm's placeholder), an implicit `return None` reported
+   by RETURN_VALUE at line 2 of the function 1..4 of a 6-line file is moved to line 4, inside the file *)
+Example logged_example :
+  with_stack_line [mkF false (Some 6%Z); mkF true (Some 1%Z); mkF false (Some 2%Z)] = 2%Z /\
+  match build_events [] [(1, 4)%Z] [] with
+  | Directors.Model.Ok ds =>
+      logged ds [] [mkF false (Some 6%Z); mkF true (Some 1%Z); mkF false (Some 2%Z)] None 6%N true =
+        Directors.Model.Ok (Some 4%Z) /\
+      ranges_in_file 6 ds
+  | Directors.Model.Raise _ => False
+  end.
+Proof.
+  split; [reflexivity|]. vm_compute. split; [reflexivity|].
+  intros k v [E | []]. injection E as <- <-. split; intro H; discriminate H.
+Qed.
